@@ -1436,7 +1436,8 @@ def meta(tier):
                 'p.grid)); every sequence of readings (8 partition observables per partition, 3 '
                 'grid observables) up to depth 2 (depth 3 on 4 observables, thorough); each '
                 'reading equals the reading on an independently built twin and the shared '
-                "grid's observables stay those of a fresh grid. All points of the domain are decided per cell by the points listed '
+                'grid keeps the observables of a fresh grid. All points of the domain are '
+                'decided per cell by the points listed '
                 '(index is piecewise affine between cell boundaries). distinct = distinct '
                 '(family, exactness class, nodes_on_bdry form, route set, child count, '
                 'executed-line signature)',
